@@ -34,6 +34,33 @@ pub enum Target {
     LenientRoot,
     /// an enum whose variants are selected by a YAML tag, some of them with empty or null-like content
     TagEn,
+    /// a map visitor that reads entries until it has met the key `x` and returns then
+    UntilX,
+}
+
+/// The value of key `x`; the visitor returns as soon as it has read it (entries behind it stay unread).
+#[derive(Debug, PartialEq)]
+pub struct UntilX(pub Tree);
+impl<'de> Deserialize<'de> for UntilX {
+    fn deserialize<D: serde::Deserializer<'de>>(d: D) -> Result<Self, D::Error> {
+        struct V;
+        impl<'de> serde::de::Visitor<'de> for V {
+            type Value = UntilX;
+            fn expecting(&self, f: &mut std::fmt::Formatter) -> std::fmt::Result {
+                f.write_str("a mapping with a key x")
+            }
+            fn visit_map<A: serde::de::MapAccess<'de>>(self, mut a: A) -> Result<UntilX, A::Error> {
+                while let Some(k) = a.next_key::<String>()? {
+                    let v = a.next_value::<Tree>()?;
+                    if k == "x" {
+                        return Ok(UntilX(v));
+                    }
+                }
+                Err(serde::de::Error::custom("no key x"))
+            }
+        }
+        d.deserialize_map(V)
+    }
 }
 
 /// First entry of a mapping; the visitor returns without asking for a second key.
@@ -100,7 +127,8 @@ impl<'de> Deserialize<'de> for RcS {
 
 pub type RcMapT = BTreeMap<String, RcS>;
 
-pub const ALL_TARGETS: [Target; 20] = [
+pub const ALL_TARGETS: [Target; 21] = [
+    Target::UntilX,
     Target::FirstEntry,
     Target::LenientRoot,
     Target::TagEn,
@@ -205,6 +233,7 @@ macro_rules! with_target {
             $crate::types::Target::FirstEntry => $f::<$crate::types::FirstEntry>($($args),*),
             $crate::types::Target::LenientRoot => $f::<$crate::types::LenientRoot>($($args),*),
             $crate::types::Target::TagEn => $f::<$crate::types::TagEn>($($args),*),
+            $crate::types::Target::UntilX => $f::<$crate::types::UntilX>($($args),*),
         }
     };
 }
